@@ -348,7 +348,9 @@ type Store struct {
 	NotFoundAsOIDC   bool // an unknown client is reported as *oidc.Error (invalid_client) instead of a plain error
 
 	PromptNoneLoginRequired bool
-	Health_                 error
+	// refusals: auth request id -> the error the storage answers when asked to issue (code or tokens) for that request
+	refusals map[string]error
+	Health_  error
 }
 
 func New(clients []*ClientReg, signing *SignKey) *Store {
@@ -436,6 +438,28 @@ func (s *Store) TakeJournal() []JournalEntry {
 	return j
 }
 
+// Refuse makes the storage refuse to issue anything for the auth request id, with this error (a storage policy decision).
+func (s *Store) Refuse(id string, err error) {
+	s.mu.Lock()
+	defer s.mu.Unlock()
+	if s.refusals == nil {
+		s.refusals = map[string]error{}
+	}
+	s.refusals[id] = err
+}
+
+func (s *Store) refusal(id string) error {
+	s.mu.Lock()
+	defer s.mu.Unlock()
+	err := s.refusals[id]
+	if err != nil {
+		if n := len(s.Journal); n > 0 {
+			s.Journal[n-1].Err = err.Error()
+		}
+	}
+	return err
+}
+
 func (s *Store) SetFault(at int, method, kind string) {
 	s.mu.Lock()
 	defer s.mu.Unlock()
@@ -518,6 +542,9 @@ func (s *Store) SaveAuthCode(ctx context.Context, id, code string) error {
 	if err := s.enter(ctx, "SaveAuthCode", id); err != nil {
 		return err
 	}
+	if err := s.refusal(id); err != nil {
+		return err
+	}
 	s.mu.Lock()
 	defer s.mu.Unlock()
 	if _, ok := s.Requests[id]; !ok {
@@ -575,6 +602,11 @@ func (s *Store) newToken(req op.TokenRequest, refreshID string) *Token {
 func (s *Store) CreateAccessToken(ctx context.Context, req op.TokenRequest) (string, time.Time, error) {
 	if err := s.enter(ctx, "CreateAccessToken", req.GetSubject()); err != nil {
 		return "", time.Time{}, err
+	}
+	if ar, ok := req.(op.AuthRequest); ok {
+		if err := s.refusal(ar.GetID()); err != nil {
+			return "", time.Time{}, err
+		}
 	}
 	s.mu.Lock()
 	defer s.mu.Unlock()
